@@ -6,6 +6,7 @@ import ast
 from .. import cfg as C
 from .. import norm as N
 from . import common as K
+from . import master_model as M
 
 SVC = 'treadmill.services.presence_service'
 PRES = 'treadmill.presence'
@@ -53,12 +54,40 @@ def _is_zk_write(call):
     return False
 
 
-def _session_eq(atom, positive=True):
+_NAMES = {}
+
+
+def _session_names(func):
+    """(metadata locals, own-session locals) of func: the second component
+    of get_with_metadata(...) and the first of zkclient.client_id."""
+    key = id(func.node)
+    if key not in _NAMES:
+        metas, sids = set(), set()
+        for sub in K.walk_no_nested(func.node):
+            if isinstance(sub, ast.Assign) and \
+                    isinstance(sub.targets[0], ast.Tuple) and \
+                    len(sub.targets[0].elts) == 2:
+                first, second = sub.targets[0].elts
+                if isinstance(sub.value, ast.Call) and \
+                        K.callee_text(sub.value).endswith(
+                            'get_with_metadata'):
+                    metas.add(N.txt(second))
+                if N.txt(sub.value).endswith('zkclient.client_id'):
+                    sids.add(N.txt(first))
+        _NAMES[key] = (metas, sids)
+    return _NAMES[key]
+
+
+def _session_eq(atom, positive=True, func=None):
     key = atom.key
     if key[0] != 'cmp':
         return False
     terms = sorted(t for t, _c in key[2])
-    if terms != sorted(['metadata.owner_session_id', 'session_id']):
+    metas, sids = _session_names(func) if func is not None else (
+        {'metadata'}, {'session_id'})
+    if len(terms) != 2 or not any(
+            sorted(['%s.owner_session_id' % m, sid]) == terms
+            for m in metas for sid in sids):
         return False
     return key[1] == ('==' if positive else '!=')
 
@@ -92,7 +121,7 @@ def check(ctx):
         K.callee_text(c) != 'zkutils.create')]
     for node in updates:
         ok = K.guarded_by(graph, node, lambda e: any(
-            _session_eq(a, True) for a in nz.facts_of_edge(e)))
+            _session_eq(a, True, sc) for a in nz.facts_of_edge(e)))
         ctx.ob('C17.2', sc, node, ok,
                'an existing node is modified only when its owner session '
                "is the client's")
@@ -101,7 +130,7 @@ def check(ctx):
     ctx.require(tests, 'owner-session test in _safe_create')
     for test in tests:
         for edge in test.succ:
-            if not any(_session_eq(a, False)
+            if not any(_session_eq(a, False, sc)
                        for a in nz.facts_of_edge(edge)):
                 continue
             region = K.cut_reach(graph, edge.dst, follow_exc=False)
@@ -135,7 +164,7 @@ def check(ctx):
                if isinstance(s, ast.Assign) and
                N.txt(s.value) == 'self.zkclient.client_id' and
                isinstance(s.targets[0], ast.Tuple) and
-               N.txt(s.targets[0].elts[0]) == 'session_id']
+               len(s.targets[0].elts) == 2]
         ctx.ob('C17.2', func, sid[0] if sid else None, len(sid) == 1,
                "session_id is the client's own session "
                '(zkclient.client_id)',
@@ -145,7 +174,7 @@ def check(ctx):
     ctx.require(dels, 'delete in _safe_delete')
     for node in dels:
         ok = K.guarded_by(dgraph, node, lambda e: any(
-            _session_eq(a, True) for a in nz.facts_of_edge(e)))
+            _session_eq(a, True, sd) for a in nz.facts_of_edge(e)))
         ctx.ob('C17.2', sd, node, ok,
                'a node is deleted only when its owner session is the '
                "client's")
@@ -221,32 +250,92 @@ def check(ctx):
                'a path is recorded only after its create succeeded')
     # delete side
     did = delete.params()[1]
-    comp = None
-    for sub in K.walk_no_nested(delete.node):
-        if isinstance(sub, ast.Assign) and isinstance(sub.value,
-                                                      ast.ListComp):
-            comp = sub
-    ctx.require(comp is not None, 'selection of paths in '
-                                  'on_delete_request')
-    gen = comp.value.generators[0]
-    conds = [N.txt(i) for i in gen.ifs]
-    ok = len(conds) == 1 and conds[0] in (
-        'self.presence[app_name][path] == %s' % did,
-        '%s == self.presence[app_name][path]' % did) and \
-        N.txt(gen.iter) == 'self.presence[app_name]'
-    ctx.ob('C17.4', delete, comp, ok,
-           'exactly the paths recorded for this request id are selected: '
-           '%s' % conds, construct='delete selection')
     dg = ctx.cfg(delete)
     dl = [n for n, c in K.nodes_calling(
         dg, lambda c: K.is_meth(c, '_safe_delete'))]
-    ok = bool(dl) and all(
-        K.enclosing_for(dg, n) is not None and
-        N.txt(K.enclosing_for(dg, n).ast.iter) == N.txt(comp.targets[0])
-        for n in dl)
-    ctx.ob('C17.4', delete, dl[0] if dl else None, ok,
-           'only the selected paths are deleted',
-           construct='delete loop domain')
+    ctx.require(dl, '_safe_delete call in on_delete_request')
+    for node in dl:
+        loop = K.enclosing_for(dg, node)
+        ctx.require(loop is not None, 'loop of the deletions in '
+                                      'on_delete_request')
+        dom = loop.ast.iter
+        ddefs = M.local_defs(delete)
+        for _hop in range(4):
+            if isinstance(dom, ast.Name) and \
+                    len(ddefs.get(dom.id, [])) == 1 and \
+                    isinstance(ddefs[dom.id][0], ast.Name):
+                dom = ddefs[dom.id][0]
+        parts = K.list_contributions(delete, dom.id) \
+            if isinstance(dom, ast.Name) else []
+        ok = bool(parts)
+        shown = []
+        for part in parts:
+            if 'other' in part or len(part['domains']) != 1 or \
+                    part['elt'] is None:
+                ok = False
+                continue
+            target, source = part['domains'][0]
+
+            def deref(expr):
+                if isinstance(expr, ast.Name) and \
+                        len(ddefs.get(expr.id, [])) == 1:
+                    return ddefs[expr.id][0]
+                return expr
+            inner = deref(source)
+            pairs = False
+            if isinstance(inner, ast.Call) and (
+                    K.is_meth(inner, 'items', 'keys') and not inner.args):
+                pairs = inner.func.attr == 'items'
+                inner = K.recv(inner)
+            elif isinstance(inner, ast.Call) and K.callee_text(inner) in (
+                    'six.iteritems', 'six.iterkeys', 'list') and \
+                    len(inner.args) == 1:
+                pairs = K.callee_text(inner) == 'six.iteritems'
+                inner = inner.args[0]
+            aliases = [N.txt(inner)]
+            inner = deref(inner)
+            aliases.append(N.txt(inner))
+            keyv = valv = None
+            if isinstance(inner, ast.Subscript) and \
+                    N.txt(inner.value) == 'self.presence':
+                if pairs and isinstance(target, ast.Tuple) and \
+                        len(target.elts) == 2:
+                    keyv = N.txt(target.elts[0])
+                    valv = N.txt(target.elts[1])
+                elif not pairs:
+                    keyv = N.txt(target)
+            if keyv is None or N.txt(part['elt']) != keyv:
+                ok = False
+                continue
+            owners = ['%s[%s]' % (a, keyv) for a in aliases] + (
+                [valv] if valv else [])
+            matched = False
+            for test, outcome in part['conds']:
+                if test is None:
+                    ok = False
+                    continue
+                atom = nz.atom(test)
+                if not outcome:
+                    atom = N.negate(atom)
+                shown.append(N.show(atom))
+                key = atom.key
+                if key[0] == 'cmp' and key[1] == '==' and sorted(
+                        t for t, _c in key[2]) in [sorted([o, did])
+                                                   for o in owners]:
+                    matched = True
+                else:
+                    ok = False
+            ok = ok and matched
+        ctx.ob('C17.4', delete, loop, ok,
+               'exactly the paths recorded for this request id are '
+               'selected for deletion: %s' % shown,
+               construct='delete selection')
+        ctx.ob('C17.4', delete, node,
+               N.txt(C.node_calls(node)[0].args[0]) ==
+               N.txt(loop.ast.target) if C.node_calls(node) and
+               C.node_calls(node)[0].args else False,
+               'only the selected paths are deleted',
+               construct='delete loop domain')
     # ---- C17.5 ---------------------------------------------------------
     ep = pres.classes.get('EndpointPresence')
     ctx.require(ep is not None, 'presence.EndpointPresence')
